@@ -29,7 +29,7 @@ ASSUMPTIONS = [
 ]
 TRUSTED = ["dataclasses and importlib (stdlib)", "Python set iteration order as an uninterpreted permutation"]
 EXHAUSTIVE = {"quick": False, "thorough": False}
-THOROUGH_ROUNDS = 5   # thorough tier: this many generator passes with derived PRNG states (vcheck)
+THOROUGH_ROUNDS = 4   # thorough tier: this many generator passes with derived PRNG states (vcheck)
 
 FIELD_POOL = ["a", "b", "c", "x", "y", "z", "u", "w"]
 
